@@ -768,8 +768,8 @@ def enums_of(fields):
     return out
 
 
-def build(fields, name="C", universe=None):
-    u = universe or Universe()
+def build(fields, name="C", universe=None, postponed=False):
+    u = universe or Universe(postponed=postponed)
     for cls, (members, values) in enums_of(fields).items():
         u.enum(cls, members, values)
     return u, u.add_class(name, {"name": name, "fields": [dict(f) for f in fields]})
@@ -779,10 +779,10 @@ def inst_fields(inst):
     return [[f.name, sp.cv(getattr(inst, f.name))] for f in dataclasses.fields(inst)]
 
 
-def run_parse(c, argv):
+def run_parse(c, argv, postponed=False):
     import simple_parsing
 
-    u, cls = build(c["fields"])
+    u, cls = build(c["fields"], postponed=postponed)
     sp.reset_globals()
     if c["api"] == "parse":
         r = sp.run_outcome(lambda: simple_parsing.parse(cls, args=argv, dest="config"))
@@ -899,7 +899,13 @@ def impl(case):
         return run_engine(c)
     if case["op"] == "nested.parse":
         return run_nested(c)
-    return run_parse(c, c["argv"])
+    r = run_parse(c, c["argv"])
+    # the same dataclass declared as in a module with `from __future__ import annotations` (string annotations, builtin
+    # generics, `X | None`): the same types, so the same acceptance decision and the same values
+    t = run_parse(c, c["argv"], postponed=True)
+    same = (t == r) if r["o"] == "ok" else (t["o"] == r["o"] and t.get("code") == r.get("code") and t.get("exc") == r.get("exc"))
+    r["postponed"] = "same" if same else t
+    return r
 
 
 def model_case(case, obs):
@@ -990,6 +996,10 @@ def oracle(case, obs):
         return fails
     mut = c["mutation"]
     fails = status_clauses(c["argv"], obs)
+    if obs.get("postponed", "same") != "same":
+        fails.append({"clause": "postponed-annotations",
+                      "detail": f"argv {c['argv']}: declared with string annotations the dataclass gives {obs['postponed']}, "
+                                f"declared with evaluated annotations {({k: v for k, v in obs.items() if k != 'postponed'})}"})
     if obs["o"] != "ok":
         # (a rejected CONTROL is not a C04 failure — accepting valid command lines is C02's claim; it is reported as the
         #  distribution tag `ctl:rejected`, which must stay at 0 for the mutation stream to mean anything)
